@@ -1,7 +1,9 @@
 // C16 — tbox::flow::StateMachine (hierarchical FSM) conforms to its reference semantics.
 //
-// A scenario is a flat op list: a machine tree definition (mach/state/route/handler/reent ops, position
-// independent) plus a call sequence (start / run ev / stop / restart) that is applied to the TOP machine.
+// A scenario is a flat op list that is applied strictly in order: definition ops (mach/state/route/handler/init/
+// attach/reent) build the machine tree incrementally -- states, routes, handlers, setInitState and
+// setSubStateMachine interleaved in any order the API allows, also between two lives (stop; define; start) --
+// and call ops (start / run ev / stop / restart) drive the TOP machine.
 // Oracle 1: an independent reference interpreter of the property statement (class Ref below) produces, per
 //           top-level call, the expected trace of guard evaluations, handler calls, exit / route / enter actions,
 //           state-changed notifications and rejected re-entrant calls, plus the observable answers
@@ -20,6 +22,7 @@
 #define VERIF_MAIN
 #include "../common/verif.h"
 #include <tbox/flow/state_machine.h>
+#include <algorithm>
 #include <array>
 #include <memory>
 
@@ -29,29 +32,30 @@ using tbox::flow::StateMachine;
 
 namespace {
 
-enum { MACH, STATE, ROUTE, HANDLER, REENT, START, RUN, STOP, RESTART, NOPS };
+enum { MACH, STATE, ROUTE, HANDLER, REENT, START, RUN, STOP, RESTART, INIT, ATTACH, NOPS };
 
-const int kMaxMach = 7, kMaxDepth = 3, kMaxRoutes = 8, kMaxReentPerHook = 3, kMaxCalls = 80;
+const int kMaxMach = 7, kMaxDepth = 3, kMaxRoutes = 8, kMaxReentPerHook = 3, kMaxCalls = 80, kMaxNews = 8;
 const int FREE = -99;       // "not compared"
 const int kBadState = 9;    // a state id that is never defined
 const int kToken = 0;       // &kToken is the Event::extra of every run() call
 
 // ------------------------------------------------------------------------------------------------ definition
-struct DRoute { int ev, to; bool guarded; uint32_t gmask; bool act; };
+// The definition is built INCREMENTALLY, in op order (struct Driver below): states, routes, handlers,
+// setInitState and setSubStateMachine calls are interleaved as the scenario says, also between two lives of the
+// machines (stop(); newState/addRoute/...; start()).  The reference resolves every state id at run time.
+struct DRoute { int ev, to; bool guarded; uint32_t gmask; bool act; bool early0; };   // early0: target 0 was not (yet) user-defined when the route was added
 struct DHandler { int ev, to; uint32_t tmask; };
 struct DState {
   int id; bool en, ex; int sub;
   std::vector<DRoute> routes; std::vector<DHandler> handlers;
 };
-struct DNew { int id, flags; bool dup; };
 struct DMach {
-  int parent = -1, depth = 1, attach_req = 0, init_kind = 0;
-  bool notify = false, init_first = false;
+  int parent = -1, depth = 1;
+  bool notify = false;
   std::vector<DState> states;   // distinct states in creation order
-  std::vector<DNew> news;       // newState() calls in op order, duplicates included
-  int attached_state = -1;      // state id in the parent machine
-  bool live = false;            // reachable from the top machine
-  bool init_explicit = false; int init_id = -1;
+  int nnews = 0;                // newState() calls issued, duplicates included
+  int attached_state = -1;      // state id in the parent machine (-1: not attached)
+  int init_id = -1;             // -1: not set yet (the first newState() sets it)
   const DState *find(int id) const { for (auto &s : states) if (s.id == id) return &s; return nullptr; }
   DState *find(int id) { for (auto &s : states) if (s.id == id) return &s; return nullptr; }
 };
@@ -60,121 +64,22 @@ enum Call { C_START, C_STOP, C_RESTART, C_RUN, C_NEWSTATE, C_ADDROUTE, NCALL };
 const char *kCallName[] = {"start", "stop", "restart", "run", "newState", "addRoute"};
 struct DReent { int call, arg; };
 typedef std::array<int, 4> HookKey;   // machine, hook kind, a, b
-struct DCall { int code, ev; };
 struct Def {
   std::vector<DMach> ms;
   std::map<HookKey, std::vector<DReent>> re;
-  std::vector<DCall> calls;
   int nre = 0;
+  Def() { ms.reserve(kMaxMach); }
 };
 
 // table-driven guard / handler results: pure functions of (definition, event, index of the top-level call).
 // They do NOT depend on how often they were called, so that extra guard evaluations (left free) cannot
-// change later behaviour.
+// change later behaviour.  A handler names its target by id; the id is resolved when the handler runs: a target
+// that is not (yet) defined and is not 0 makes the handler decline (returning an unknown id is undocumented).
 bool gval(const DRoute &r, int ev, int step) { return (r.gmask >> ((ev * 7 + step) & 15)) & 1; }
-int hval(const DHandler &h, int ev, int step) { return ((h.tmask >> ((ev * 3 + step) & 7)) & 1) ? h.to : -1; }
-
-Def parse(const Scenario &s) {
-  Def d;
-  for (auto &op : s.ops) {
-    if (op.code != MACH || (int)d.ms.size() >= kMaxMach) continue;
-    DMach m; int k = (int)d.ms.size();
-    if (k > 0) {
-      int p = (int)op.in(0, 0, k - 1);
-      while (d.ms[p].depth >= kMaxDepth) p = d.ms[p].parent;
-      m.parent = p; m.depth = d.ms[p].depth + 1;
-    }
-    m.attach_req = (int)op.in(1, 0, 5);
-    m.init_kind = (int)op.in(2, 0, 7);
-    int fl = (int)op.in(3, 0, 3);
-    m.notify = fl & 1; m.init_first = fl & 2;
-    d.ms.push_back(m);
-  }
-  if (d.ms.empty()) d.ms.emplace_back();
-  int nm = (int)d.ms.size();
-  for (auto &op : s.ops) {
-    if (op.code != STATE) continue;
-    DMach &m = d.ms[op.in(0, 0, nm - 1)];
-    if (m.news.size() >= 8) continue;
-    int id = (int)op.in(1, 0, 5), fl = (int)op.in(2, 0, 3);
-    bool dup = m.find(id) != nullptr;
-    m.news.push_back({id, fl, dup});
-    if (!dup) m.states.push_back(DState{id, bool(fl & 1), bool(fl & 2), -1, {}, {}});
-  }
-  for (auto &op : s.ops) {
-    if (op.code != ROUTE && op.code != HANDLER) continue;
-    DMach &m = d.ms[op.in(0, 0, nm - 1)];
-    int n = (int)m.states.size();
-    if (!n) continue;
-    DState &from = m.states[op.in(1, 0, n - 1)];
-    int ev = (int)op.in(2, 0, 4);
-    int t = (int)op.in(3, 0, n);
-    int to = t == 0 ? 0 : m.states[t - 1].id;
-    if (op.code == ROUTE) {
-      if ((int)from.routes.size() >= kMaxRoutes) continue;
-      bool guarded = op.in(4, 0, 1) != 0;
-      from.routes.push_back(DRoute{ev, to, guarded, (uint32_t)op.in(5, 0, 65535), op.in(6, 0, 1) != 0});
-    } else {
-      bool dup = false;
-      for (auto &h : from.handlers) if (h.ev == ev) dup = true;   // overriding a handler is undocumented: not generated
-      if (dup) continue;
-      from.handlers.push_back(DHandler{ev, to, (uint32_t)op.in(4, 0, 255)});
-    }
-  }
-  // initial states, attachment, liveness
-  for (int k = 0; k < nm; ++k) {
-    DMach &m = d.ms[k];
-    int n = (int)m.states.size();
-    int kind = m.init_kind;
-    if (n == 0) kind = 0;
-    if (kind == 7 && k > 0) kind = 0;   // a nested machine that cannot start is outside the documented domain
-    if (kind == 0) { m.init_explicit = false; m.init_id = n ? m.states[0].id : -1; }
-    else if (kind == 7) { m.init_explicit = true; m.init_id = kBadState; }
-    else { m.init_explicit = true; m.init_id = m.states[(kind - 1) % n].id; }
-    if (k == 0) { m.live = true; continue; }
-    DMach &p = d.ms[m.parent];
-    if (n == 0) continue;
-    std::vector<DState*> cand;
-    for (auto &st : p.states) if (st.sub < 0) cand.push_back(&st);
-    if (cand.empty()) continue;
-    DState *at = cand[m.attach_req % cand.size()];
-    at->sub = k; m.attached_state = at->id;
-    m.live = p.live;
-  }
-  // re-entrant calls
-  for (auto &op : s.ops) {
-    if (op.code != REENT) continue;
-    int mi = (int)op.in(0, 0, nm - 1);
-    const DMach &m = d.ms[mi];
-    if (!m.live) continue;
-    int hk = (int)op.in(1, 0, NHOOK - 1);
-    std::vector<HookKey> hooks;
-    for (auto &st : m.states) {
-      if (hk == H_ENTER && st.en) hooks.push_back({mi, hk, st.id, 0});
-      if (hk == H_EXIT && st.ex) hooks.push_back({mi, hk, st.id, 0});
-      for (int i = 0; i < (int)st.routes.size(); ++i) {
-        if (hk == H_ACT && st.routes[i].act) hooks.push_back({mi, hk, st.id, i});
-        if (hk == H_GUARD && st.routes[i].guarded) hooks.push_back({mi, hk, st.id, i});
-      }
-      if (hk == H_HANDLER) for (auto &h : st.handlers) hooks.push_back({mi, hk, st.id, h.ev});
-    }
-    if (hk == H_NOTIFY && m.notify) hooks.push_back({mi, hk, 0, 0});
-    if (hooks.empty()) continue;
-    auto &v = d.re[hooks[op.in(2, 0, (int64_t)hooks.size() - 1)]];
-    if ((int)v.size() >= kMaxReentPerHook) continue;
-    v.push_back(DReent{(int)op.in(3, 0, NCALL - 1), (int)op.in(4, 0, 5)});
-    d.nre++;
-  }
-  for (auto &op : s.ops) {
-    if ((int)d.calls.size() >= kMaxCalls) break;
-    if (op.code == START || op.code == STOP || op.code == RESTART) d.calls.push_back({op.code, 0});
-    else if (op.code == RUN) {   // "run N" is event N for N = 1..5; every other value is folded into 1..5
-      int64_t v = op.arg(0, 1);
-      uint64_t u = v < 1 ? (uint64_t)(1 - (v + 1)) + 1 : (uint64_t)(v - 1);
-      d.calls.push_back({RUN, 1 + (int)(u % 5)});
-    }
-  }
-  return d;
+int hval(const DHandler &h, int ev, int step, const DMach &dm) {
+  int t = ((h.tmask >> ((ev * 3 + step) & 7)) & 1) ? h.to : -1;
+  if (t > 0 && !dm.find(t)) t = -1;
+  return t;
 }
 
 // ----------------------------------------------------------------------------------------------------- trace
@@ -239,13 +144,14 @@ struct Ref {
   int max_depth_active = 0; bool competing = false, wild_vs_spec = false, override_ = false, fallthrough = false,
       stop_active_sub = false, sub_term_continue = false, term_reached = false, reent_done = false, refused_start = false,
       self_trans = false, stale_sub_parent_handles = false, handler_default = false, user_term = false, trans_in_depth3 = false;
-  int transitions = 0, free_results = 0;
+  int transitions = 0, free_results = 0, top_starts = 0;
+  bool early_route_late0 = false;   // a route registered before newState(0, ...) led into the user-defined state 0
   // run() is documented to return "whether the state changed".  When a sub-machine changed state, thereby
   // terminated, and the machine itself then finds no transition for the same event, neither answer is fixed by
   // the documentation or a unit test: the result of that call is not compared.
   bool res_free = false;
 
-  explicit Ref(const Def *dd) : d(dd), ms(dd->ms.size()) {}
+  explicit Ref(const Def *dd) : d(dd), ms(kMaxMach) {}
 
   void emit(int kind, int m, int a, int b, int ev, int cur, int next, int last) {
     tr.push_back(Ent{kind, m, a, b, ev, cur, next, last});
@@ -263,6 +169,7 @@ struct Ref {
     const DState *s = dm.find(dm.init_id);
     if (!s) { if (top) refused_start = true; return false; }
     r.running = true; r.cur = s->id;
+    if (top) ++top_starts;
     if (dm.depth > max_depth_active) max_depth_active = dm.depth;
     if (s->id == 0) user_term = true;
     if (s->en) emit(K_ENTER, m, s->id, 0, top ? 0 : FREE, s->id, -1, r.last);
@@ -301,7 +208,7 @@ struct Ref {
     if (!h) for (auto &x : s->handlers) if (x.ev == 0) { h = &x; handler_default = true; }
     if (h) {
       emit(K_HANDLER, m, s->id, h->ev, e, s->id, FREE, r.last);
-      target = hval(*h, e, step);
+      target = hval(*h, e, step, dm);
       bool route_would_match = false;
       for (auto &rt : s->routes) if ((rt.ev == 0 || rt.ev == e) && (!rt.guarded || gval(rt, e, step))) route_would_match = true;
       if (target >= 0 && route_would_match) override_ = true;
@@ -324,6 +231,7 @@ struct Ref {
       if (matching >= 2 && failed_before >= 1) competing = true;
       if (wild && spec) wild_vs_spec = true;
       target = s->routes[ridx].to; act = s->routes[ridx].act;
+      if (s->routes[ridx].early0 && dm.find(0)) early_route_late0 = true;
     }
     int from = s->id;
     const DState *t = dm.find(target);
@@ -354,8 +262,8 @@ struct Real {
   std::vector<int> last_kind, last_a;
   bool in_reent = false;
 
-  explicit Real(const Def *dd) : d(dd), sm(dd->ms.size()), open(dd->ms.size(), -1), pend_enter(dd->ms.size(), -1),
-                                 last_kind(dd->ms.size(), -1), last_a(dd->ms.size(), -1) {}
+  explicit Real(const Def *dd) : d(dd), sm(kMaxMach), open(kMaxMach, -1), pend_enter(kMaxMach, -1),
+                                 last_kind(kMaxMach, -1), last_a(kMaxMach, -1) {}
 
   void fail(const std::string &m) { if (err.empty()) err = m; }
 
@@ -422,47 +330,37 @@ struct Real {
     if (it != d->re.end()) for (auto &r : it->second) reent(m, r);
   }
 
-  void build() {
-    int nm = (int)d->ms.size();
-    for (int k = 0; k < nm; ++k) if (d->ms[k].live) sm[k].reset(new StateMachine);
-    for (int k = 0; k < nm; ++k) {
-      const DMach &dm = d->ms[k];
-      if (!dm.live) continue;
-      StateMachine &s = *sm[k];
-      Real *R = this;
-      if (dm.init_explicit && dm.init_first) s.setInitState(dm.init_id);
-      for (auto &nw : dm.news) {
-        StateMachine::ActionFunc en, ex;
-        int id = nw.id;
-        if (nw.flags & 1) en = [R, k, id](Event e) { R->hook(K_ENTER, k, id, 0, e); };
-        if (nw.flags & 2) ex = [R, k, id](Event e) { R->hook(K_EXIT, k, id, 0, e); };
-        bool ok = s.newState(id, en, ex);
-        if (ok == nw.dup) fail("newState(" + std::to_string(id) + ") on machine " + std::to_string(k) + " returned " + (ok ? "true for a duplicate" : "false for a new state"));
-      }
-      if (dm.init_explicit && !dm.init_first) s.setInitState(dm.init_id);
-      for (auto &st : dm.states) {
-        int sid = st.id;
-        for (int i = 0; i < (int)st.routes.size(); ++i) {
-          const DRoute *rt = &st.routes[i];
-          StateMachine::GuardFunc g; StateMachine::ActionFunc a;
-          if (rt->guarded) g = [R, k, sid, i, rt](Event e) { R->hook(K_GUARD, k, sid, i, e); return gval(*rt, e.id, R->step); };
-          if (rt->act) a = [R, k, sid, i](Event e) { R->hook(K_ACT, k, sid, i, e); };
-          if (!s.addRoute(sid, rt->ev, rt->to, g, a)) fail("addRoute with existing endpoints returned false");
-        }
-        for (auto &h : st.handlers) {
-          const DHandler *hp = &h;
-          if (!s.addEvent(sid, h.ev, [R, k, sid, hp](Event e) -> StateMachine::StateID { R->hook(K_HANDLER, k, sid, hp->ev, e); return hval(*hp, e.id, R->step); }))
-            fail("addEvent on an existing state returned false");
-        }
-      }
-      if (dm.notify) s.setStateChangedCallback([R, k](StateMachine::StateID f, StateMachine::StateID t, Event e) { R->hook(K_NOTIFY, k, f, t, e); });
-    }
-    for (int k = 0; k < nm; ++k) {
-      const DMach &dm = d->ms[k];
-      if (!dm.live) continue;
-      for (auto &st : dm.states) if (st.sub >= 0 && d->ms[st.sub].live)
-        if (!sm[k]->setSubStateMachine(st.id, sm[st.sub].get())) fail("setSubStateMachine on an existing state returned false");
-    }
+  // ---- definition calls, issued one by one in scenario order; every return value is checked
+  void newMachine(int k, bool notify) {
+    sm[k].reset(new StateMachine);
+    Real *R = this;
+    if (notify) sm[k]->setStateChangedCallback([R, k](StateMachine::StateID f, StateMachine::StateID t, Event e) { R->hook(K_NOTIFY, k, f, t, e); });
+  }
+  void newState(int k, int id, int flags, bool dup) {
+    Real *R = this;
+    StateMachine::ActionFunc en, ex;
+    if (flags & 1) en = [R, k, id](Event e) { R->hook(K_ENTER, k, id, 0, e); };
+    if (flags & 2) ex = [R, k, id](Event e) { R->hook(K_EXIT, k, id, 0, e); };
+    bool ok = sm[k]->newState(id, en, ex);
+    if (ok == dup) fail("newState(" + std::to_string(id) + ") on machine " + std::to_string(k) + " returned " + (ok ? "true for a duplicate" : "false for a new state"));
+  }
+  void addRoute(int k, int sid, int i, const DRoute &rt, bool valid) {
+    Real *R = this;
+    StateMachine::GuardFunc g; StateMachine::ActionFunc a;
+    if (rt.guarded) g = [R, k, sid, i, rt](Event e) { R->hook(K_GUARD, k, sid, i, e); return gval(rt, e.id, R->step); };
+    if (rt.act) a = [R, k, sid, i](Event e) { R->hook(K_ACT, k, sid, i, e); };
+    bool ok = sm[k]->addRoute(sid, rt.ev, rt.to, g, a);
+    if (ok != valid) fail("addRoute(" + std::to_string(sid) + ", " + std::to_string(rt.ev) + ", " + std::to_string(rt.to) + ") on machine " + std::to_string(k) +
+                          (ok ? " returned true although the target state does not exist" : " returned false although the source exists and the target exists or is 0"));
+  }
+  void addHandler(int k, int sid, const DHandler &h) {
+    Real *R = this;
+    if (!sm[k]->addEvent(sid, h.ev, [R, k, sid, h](Event e) -> StateMachine::StateID { R->hook(K_HANDLER, k, sid, h.ev, e); return hval(h, e.id, R->step, R->d->ms[k]); }))
+      fail("addEvent on an existing state returned false");
+  }
+  void setInit(int k, int id) { sm[k]->setInitState(id); }
+  void attach(int k, int sid, int sub) {
+    if (!sm[k]->setSubStateMachine(sid, sm[sub].get())) fail("setSubStateMachine on an existing state of a stopped machine returned false");
   }
 };
 
@@ -476,33 +374,137 @@ std::string balanceAtStop(const Real &R) {
   return "";
 }
 
-std::string run(const Scenario &scn, CaseInfo &info) {
-  Def d = parse(scn);
-  Ref ref(&d);
-  Real R(&d);
-  R.build();
-  if (!R.err.empty()) return "while building the machines: " + R.err;
-  std::vector<DCall> calls = d.calls;
-  calls.push_back({STOP, 0});   // every history ends with the top machine stopped
-  int nm = (int)d.ms.size();
-  for (size_t k = 0; k < calls.size(); ++k) {
-    const DCall &c = calls[k];
-    R.step = ref.step = (int)k;
+// Applies the scenario op by op: definition ops go to the shared definition AND to the real objects (only while
+// the top machine is stopped: what newState()/addRoute()/... do on a running machine outside its own callbacks is
+// not documented), call ops go to the real top machine and to the reference.
+struct Driver {
+  Def d; Ref ref; Real R;
+  int skipped_running = 0, defs_between_lives = 0;
+  bool route0_before_state0 = false, state0_between_lives = false, unknown_target_refused = false, init_before_state = false,
+       attach_between_lives = false, state_between_lives = false, route_between_lives = false;
+  Driver() : ref(&d), R(&d) {}
+
+  void newMach(const Op *op) {
+    int k = (int)d.ms.size();
+    DMach m;
+    if (k > 0 && op) {
+      int p = (int)op->in(0, 0, k - 1);
+      while (d.ms[p].depth >= kMaxDepth) p = d.ms[p].parent;
+      m.parent = p; m.depth = d.ms[p].depth + 1;
+    } else if (k > 0) { m.parent = 0; m.depth = 2; }
+    m.notify = op ? (op->in(1, 0, 1) != 0) : false;
+    d.ms.push_back(m);
+    R.newMachine(k, m.notify);
+  }
+  int mach(const Op &op) { if (d.ms.empty()) newMach(nullptr); return (int)op.in(0, 0, (int64_t)d.ms.size() - 1); }
+
+  void def(const Op &op) {
+    if (ref.ms[0].running) { ++skipped_running; return; }
+    if (ref.top_starts > 0) ++defs_between_lives;
+    switch (op.code) {
+      case MACH: if ((int)d.ms.size() < kMaxMach) newMach(&op); break;
+      case STATE: {
+        int k = mach(op); DMach &m = d.ms[k];
+        if (m.nnews >= kMaxNews) break;
+        int id = (int)op.in(1, 0, 5), fl = (int)op.in(2, 0, 3);
+        bool dup = m.find(id) != nullptr;
+        ++m.nnews;
+        R.newState(k, id, fl, dup);
+        if (dup) break;
+        if (id == 0) for (auto &st : m.states) for (auto &rt : st.routes) if (rt.to == 0) route0_before_state0 = true;
+        if (m.init_id == id) init_before_state = true;   // setInitState(id) came before newState(id)
+        if (m.init_id == -1) m.init_id = id;   // "the first newState() is the initial state unless setInitState() said otherwise"
+        m.states.push_back(DState{id, bool(fl & 1), bool(fl & 2), -1, {}, {}});
+        if (ref.top_starts > 0) { state_between_lives = true; if (id == 0) state0_between_lives = true; }
+        break; }
+      case ROUTE: {
+        int k = mach(op); DMach &m = d.ms[k];
+        int n = (int)m.states.size();
+        if (!n) break;
+        DState &from = m.states[op.in(1, 0, n - 1)];
+        if ((int)from.routes.size() >= kMaxRoutes) break;
+        int t = (int)op.in(3, 0, n + 1), to = 0; bool valid = true;
+        if (t >= 1 && t <= n) to = m.states[t - 1].id;
+        else if (t == n + 1) { for (int id = 1; id <= 5 && valid; ++id) if (!m.find(id)) { to = id; valid = false; } }   // a state that does not exist (yet)
+        DRoute rt{(int)op.in(2, 0, 4), to, op.in(4, 0, 1) != 0, (uint32_t)op.in(5, 0, 65535), op.in(6, 0, 1) != 0, to == 0 && !m.find(0)};
+        R.addRoute(k, from.id, (int)from.routes.size(), rt, valid);
+        if (!valid) { unknown_target_refused = true; break; }
+        from.routes.push_back(rt);
+        if (ref.top_starts > 0) route_between_lives = true;
+        break; }
+      case HANDLER: {
+        int k = mach(op); DMach &m = d.ms[k];
+        int n = (int)m.states.size();
+        if (!n) break;
+        DState &st = m.states[op.in(1, 0, n - 1)];
+        DHandler h{(int)op.in(2, 0, 4), (int)op.in(3, 0, 5), (uint32_t)op.in(4, 0, 255)};
+        bool dup = false;
+        for (auto &x : st.handlers) if (x.ev == h.ev) dup = true;   // overriding a handler is undocumented: not generated
+        if (dup) break;
+        R.addHandler(k, st.id, h);
+        st.handlers.push_back(h);
+        break; }
+      case INIT: {
+        int k = mach(op); DMach &m = d.ms[k];
+        int v = (int)op.in(1, 0, 6), id = v == 6 ? kBadState : v;
+        // a nested machine must stay startable (a sub-machine that cannot start is outside the documented domain)
+        if (k > 0 && !m.find(id)) break;
+        R.setInit(k, id);
+        m.init_id = id;
+        break; }
+      case ATTACH: {
+        int k = mach(op); DMach &m = d.ms[k];
+        if (k == 0 || m.attached_state >= 0 || !m.find(m.init_id)) break;
+        DMach &p = d.ms[m.parent];
+        std::vector<DState*> cand;
+        for (auto &st : p.states) if (st.sub < 0) cand.push_back(&st);
+        if (cand.empty()) break;
+        DState *at = cand[op.in(1, 0, (int64_t)cand.size() - 1)];
+        R.attach(m.parent, at->id, k);
+        at->sub = k; m.attached_state = at->id;
+        if (ref.top_starts > 0) attach_between_lives = true;
+        break; }
+      case REENT: {
+        int mi = mach(op); const DMach &m = d.ms[mi];
+        int hk = (int)op.in(1, 0, NHOOK - 1);
+        std::vector<HookKey> hooks;
+        for (auto &st : m.states) {
+          if (hk == H_ENTER && st.en) hooks.push_back({mi, hk, st.id, 0});
+          if (hk == H_EXIT && st.ex) hooks.push_back({mi, hk, st.id, 0});
+          for (int i = 0; i < (int)st.routes.size(); ++i) {
+            if (hk == H_ACT && st.routes[i].act) hooks.push_back({mi, hk, st.id, i});
+            if (hk == H_GUARD && st.routes[i].guarded) hooks.push_back({mi, hk, st.id, i});
+          }
+          if (hk == H_HANDLER) for (auto &h : st.handlers) hooks.push_back({mi, hk, st.id, h.ev});
+        }
+        if (hk == H_NOTIFY && m.notify) hooks.push_back({mi, hk, 0, 0});
+        if (hooks.empty()) break;
+        auto &v = d.re[hooks[op.in(2, 0, (int64_t)hooks.size() - 1)]];
+        if ((int)v.size() >= kMaxReentPerHook) break;
+        v.push_back(DReent{(int)op.in(3, 0, NCALL - 1), (int)op.in(4, 0, 5)});
+        d.nre++;
+        break; }
+    }
+  }
+
+  // one call on the top machine, compared with the reference; "" = ok
+  std::string call(int code, int ev, int k, bool final) {
+    if (d.ms.empty()) newMach(nullptr);
+    R.step = ref.step = k;
     R.tr.clear(); ref.tr.clear();
     bool rres = false, xres = false; const char *name = "?";
-    switch (c.code) {
+    switch (code) {
       case START: name = "start"; rres = R.sm[0]->start(); xres = ref.start(0, true); break;
-      case RUN: name = "run"; rres = R.sm[0]->run(Event(c.ev, &kToken)); ref.res_free = false; xres = ref.run(0, c.ev); if (ref.res_free) { xres = rres; ref.free_results++; } break;
+      case RUN: name = "run"; rres = R.sm[0]->run(Event(ev, &kToken)); ref.res_free = false; xres = ref.run(0, ev); if (ref.res_free) { xres = rres; ref.free_results++; } break;
       case STOP: name = "stop"; R.sm[0]->stop(); ref.stop(0, true); break;
       case RESTART: name = "restart"; rres = R.sm[0]->restart(); ref.stop(0, true); xres = ref.start(0, true); break;
     }
-    std::string where = "call " + std::to_string(k) + " (" + name + (c.code == RUN ? " " + std::to_string(c.ev) : std::string()) + (k + 1 == calls.size() ? ", final" : "") + "): ";
+    std::string where = "call " + std::to_string(k) + " (" + name + (code == RUN ? " " + std::to_string(ev) : std::string()) + (final ? ", final" : "") + "): ";
     if (!R.err.empty()) return where + R.err;
     std::string e = match(ref.tr, R.tr);
     if (!e.empty()) return where + e;
     if (rres != xres) return where + "returned " + (rres ? "true" : "false") + ", reference " + (xres ? "true" : "false");
-    for (int m = 0; m < nm; ++m) {
-      if (!R.sm[m]) continue;
+    for (int m = 0; m < (int)d.ms.size(); ++m) {
       if (R.pend_enter[m] >= 0) return where + "machine " + std::to_string(m) + ": route action not followed by the enter action of state " + std::to_string(R.pend_enter[m]);
       const RM &x = ref.ms[m]; StateMachine &s = *R.sm[m];
       std::string M = where + "machine " + std::to_string(m) + " (nesting level " + std::to_string(d.ms[m].depth) + "): ";
@@ -513,9 +515,36 @@ std::string run(const Scenario &scn, CaseInfo &info) {
       if (x.last != FREE && s.lastState() != x.last) return M + "lastState()=" + std::to_string(s.lastState()) + ", reference " + std::to_string(x.last);
       if (s.nextState() != -1) return M + "nextState()=" + std::to_string(s.nextState()) + " outside any transition";
     }
-    if (c.code == STOP) { std::string b = balanceAtStop(R); if (!b.empty()) return where + b; }
+    if (code == STOP) { std::string b = balanceAtStop(R); if (!b.empty()) return where + b; }
+    return "";
   }
-  int maxdepth = 0; for (auto &m : d.ms) if (m.live && m.depth > maxdepth) maxdepth = m.depth;
+};
+
+std::string run(const Scenario &scn, CaseInfo &info) {
+  Driver D;
+  Def &d = D.d; Ref &ref = D.ref;
+  int ncalls = 0;
+  for (auto &op : scn.ops) {
+    if (op.code == START || op.code == STOP || op.code == RESTART || op.code == RUN) {
+      if (ncalls >= kMaxCalls) continue;
+      int ev = 0;
+      if (op.code == RUN) {   // "run N" is event N for N = 1..5; every other value is folded into 1..5
+        int64_t v = op.arg(0, 1);
+        uint64_t u = v < 1 ? (uint64_t)(1 - (v + 1)) + 1 : (uint64_t)(v - 1);
+        ev = 1 + (int)(u % 5);
+      }
+      std::string e = D.call(op.code, ev, ncalls++, false);
+      if (!e.empty()) return e;
+    } else if (op.code >= 0 && op.code < NOPS) {
+      D.def(op);
+      if (!D.R.err.empty()) return "definition op before call " + std::to_string(ncalls) + ": " + D.R.err;
+    }
+  }
+  { std::string e = D.call(STOP, 0, ncalls, true); if (!e.empty()) return e; }   // every history ends with the top machine stopped
+  // liveness / depth of the final tree
+  std::vector<bool> live(d.ms.size(), false);
+  for (size_t k = 0; k < d.ms.size(); ++k) live[k] = k == 0 || (d.ms[k].attached_state >= 0 && live[d.ms[k].parent]);
+  int maxdepth = 0; for (size_t k = 0; k < d.ms.size(); ++k) if (live[k] && d.ms[k].depth > maxdepth) maxdepth = d.ms[k].depth;
   info.cls_if(maxdepth >= 2, "def_depth>=2");
   info.cls_if(maxdepth >= 3, "def_depth=3");
   info.cls_if(ref.max_depth_active >= 2, "submachine_started");
@@ -538,6 +567,17 @@ std::string run(const Scenario &scn, CaseInfo &info) {
   info.cls_if(ref.transitions >= 5, "transitions>=5");
   info.cls_if(ref.transitions == 0, "no_transition");
   info.cls_if(ref.free_results > 0, "run_result_left_free");
+  info.cls_if(D.route0_before_state0, "route_to_0_registered_before_newState0");
+  info.cls_if(ref.early_route_late0, "early_route_enters_late_declared_state0");
+  info.cls_if(D.unknown_target_refused, "addRoute_unknown_target_refused");
+  info.cls_if(D.init_before_state, "setInitState_before_newState_of_that_state");
+  info.cls_if(D.defs_between_lives > 0, "definition_changed_between_lives");
+  info.cls_if(D.state_between_lives, "state_added_between_lives");
+  info.cls_if(D.state0_between_lives, "state0_added_between_lives");
+  info.cls_if(D.route_between_lives, "route_added_between_lives");
+  info.cls_if(D.attach_between_lives, "submachine_attached_between_lives");
+  info.cls_if(D.skipped_running > 0, "definition_op_skipped_while_running");
+  info.cls_if(ref.top_starts >= 2, "top_started>=2_times");
   info.nontrivial = ref.max_depth_active >= 2 && ref.competing && ref.override_ && ref.stop_active_sub;
   return "";
 }
@@ -568,8 +608,8 @@ void dumpSeed(const Scenario &s, const std::vector<int> &arity) {
 
 SubDef def = [] {
   SubDef d; d.name = "hsm";
-  d.op_names = {"mach", "state", "route", "handler", "reent", "start", "run", "stop", "restart"};
-  d.op_arity = {4, 3, 7, 5, 5, 0, 1, 0, 0};
+  d.op_names = {"mach", "state", "route", "handler", "reent", "start", "run", "stop", "restart", "init", "attach"};
+  d.op_arity = {2, 3, 7, 5, 5, 0, 1, 0, 0, 2, 2};
   d.nt_rule = "a nested machine (depth >= 2) was started, some route scan had >= 2 routes matching the event with an earlier guard false and a later route taken, "
               "a handler picked the target although a route would also have matched, and stop/restart was issued while a sub-machine was running";
 #ifndef VERIF_ENGINE_FUZZ
@@ -596,53 +636,97 @@ SubDef def = [] {
       Scenario sc; auto &v = sc.ops;
       auto mk = [&v](int code, std::vector<int64_t> a) { Op o; o.code = code; o.a = std::move(a); v.push_back(std::move(o)); };
       int nm = (int)pick({{2, 1}, {4, 2}, {6, 3}, {4, 4}, {2, 5}, {1, 6}});
-      std::vector<int> ns(nm);
+      std::vector<std::vector<int64_t>> declared(nm);   // ids declared so far, per machine, in order
       for (int k = 0; k < nm; ++k) {
         int64_t parent = k ? rng(k > 1 ? (k - 1) / 2 : 0, k - 1) : 0;   // biased towards chains: depth 3 is common
-        int64_t init = pick({{6, 0}, {3, -1}, {k == 0 ? 1 : 0, 7}});
-        if (init < 0) init = rng(1, 6);
-        mk(MACH, {parent, rng(0, 5), init, rng(0, 3)});
-        ns[k] = (int)rng(2, 5);
-        bool term = rng(0, 3) == 0;   // user-defined state 0
-        int termpos = (int)rng(0, ns[k] - 1);
-        int64_t base = rng(0, 4);
-        for (int i = 0; i < ns[k]; ++i) {
-          int64_t id = (term && i == termpos) ? 0 : 1 + (base + i) % 5;
-          mk(STATE, {k, id, pick({{5, 3}, {1, 0}, {1, 1}, {1, 2}})});
-        }
-        if (rng(0, 19) == 0) mk(STATE, {k, rng(0, 5), rng(0, 3)});   // probably a duplicate
+        mk(MACH, {parent, rng(0, 1)});
       }
+      auto route = [&](int k, int64_t from) {
+        int n = (int)declared[k].size();
+        int64_t ev = pick({{3, 0}, {5, 1}, {5, 2}, {1, 3}, {1, 4}});
+        int64_t to = pick({{2, 0}, {12, -1}, {1, -2}}); if (to == -1) to = rng(1, n); else if (to == -2) to = n + 1;   // n+1: a state that does not exist
+        int64_t guarded = pick({{2, 0}, {3, 1}});
+        int64_t gm = pick({{1, 0}, {2, 65535}, {7, -1}}); if (gm < 0) gm = rng(0, 65535);
+        mk(ROUTE, {k, from < 0 ? rng(0, n - 1) : from, ev, to, guarded, gm, rng(0, 1)});
+      };
+      auto handler = [&](int k, const std::vector<int64_t> &ids) {
+        int n = (int)declared[k].size();
+        int64_t ev = pick({{2, 0}, {4, 1}, {4, 2}, {1, 3}, {1, 4}});
+        int64_t to = pick({{1, 0}, {12, -1}}); if (to < 0) to = ids[rng(0, (int64_t)ids.size() - 1)];   // possibly a state declared later
+        int64_t tm = pick({{2, 0}, {1, 255}, {7, -1}}); if (tm < 0) tm = rng(0, 255);
+        mk(HANDLER, {k, rng(0, n - 1), ev, to, tm});
+      };
       for (int k = 0; k < nm; ++k) {
-        int n = ns[k];
-        int nr = (int)rng(2 * n, 4 * n);
-        for (int i = 0; i < nr; ++i) {
-          int64_t ev = pick({{3, 0}, {5, 1}, {5, 2}, {1, 3}, {1, 4}});
-          int64_t to = pick({{1, 0}, {8, -1}}); if (to < 0) to = rng(1, n);
-          int64_t guarded = pick({{2, 0}, {3, 1}});
-          int64_t gm = pick({{1, 0}, {2, 65535}, {7, -1}}); if (gm < 0) gm = rng(0, 65535);
-          mk(ROUTE, {k, rng(0, n - 1), ev, to, guarded, gm, rng(0, 1)});
-        }
-        int nh = (int)rng(0, n + 1);
-        for (int i = 0; i < nh; ++i) {
-          int64_t ev = pick({{2, 0}, {4, 1}, {4, 2}, {1, 3}, {1, 4}});
-          int64_t to = pick({{1, 0}, {12, -1}}); if (to < 0) to = rng(1, n);
-          int64_t tm = pick({{2, 0}, {1, 255}, {7, -1}}); if (tm < 0) tm = rng(0, 255);
-          mk(HANDLER, {k, rng(0, n - 1), ev, to, tm});
+        int ns = (int)rng(2, 5);
+        bool term = rng(0, 2) == 0;   // user-defined state 0
+        int termpos = (int)rng(0, ns - 1);
+        int64_t base = rng(0, 4);
+        std::vector<int64_t> ids;
+        for (int i = 0; i < ns; ++i) ids.push_back((term && i == termpos) ? 0 : 1 + (base + i) % 5);
+        // items: 0..ns-1 = states, 100 = route, 101 = handler, 102 = setInitState, 103 = attach to the parent, 104 = duplicate state
+        std::vector<int> items;
+        int nr = (int)rng(2 * ns, 4 * ns), nh = (int)rng(0, ns + 1);
+        bool classic = rng(0, 2) == 0;   // all states first, then routes and handlers (the order of every unit test)
+        for (int i = 1; i < ns; ++i) items.push_back(i);
+        size_t nstates_first = items.size();
+        for (int i = 0; i < nr; ++i) items.push_back(100);
+        for (int i = 0; i < nh; ++i) items.push_back(101);
+        if (rng(0, 2) == 0) items.push_back(102);
+        if (k > 0 && rng(0, 19) != 0) items.push_back(103);
+        if (rng(0, 19) == 0) items.push_back(104);
+        auto shuffle = [&](size_t lo) { for (size_t i = items.size(); i > lo + 1; --i) std::swap(items[i - 1], items[lo + (size_t)rng(0, (int64_t)(i - 1 - lo))]); };
+        shuffle(classic ? nstates_first : 0);
+        if (k == 0 && rng(0, 5) == 0) mk(INIT, {k, rng(0, 11) == 0 ? 6 : ids[rng(0, ns - 1)]});   // setInitState() before any newState()
+        mk(STATE, {k, ids[0], pick({{5, 3}, {1, 0}, {1, 1}, {1, 2}})}); declared[k].push_back(ids[0]);
+        for (int it : items) {
+          int n = (int)declared[k].size();
+          if (it < 100) { mk(STATE, {k, ids[it], pick({{6, 3}, {1, 0}, {1, 1}, {1, 2}})}); declared[k].push_back(ids[it]); }
+          else if (it == 100) route(k, -1);
+          else if (it == 101) handler(k, ids);
+          else if (it == 102) mk(INIT, {k, k == 0 ? ids[rng(0, ns - 1)] : declared[k][rng(0, n - 1)]});
+          else if (it == 103) mk(ATTACH, {k, rng(0, 5)});
+          else mk(STATE, {k, declared[k][rng(0, n - 1)], rng(0, 3)});
         }
       }
-      if (rng(0, 3) == 0) {   // a quarter of the cases: re-entrant calls from inside callbacks
-        int nre = (int)rng(1, 6);
-        for (int i = 0; i < nre; ++i) mk(REENT, {rng(0, nm - 1), rng(0, NHOOK - 1), rng(0, 11), rng(0, NCALL - 1), rng(0, 5)});
-      }
-      if (rng(0, 9) != 0) mk(START, {});
-      int nc = (int)pick({{1, 2}, {3, 8}, {4, 20}, {3, 40}});
-      nc = (int)rng(nc / 2, nc);
-      for (int i = 0; i < nc; ++i) {
-        switch (pick({{30, RUN}, {2, STOP}, {3, RESTART}, {2, START}})) {
-          case RUN: mk(RUN, {pick({{6, 1}, {6, 2}, {2, 3}, {1, 4}, {1, 5}})}); break;
-          case STOP: mk(STOP, {}); break;
-          case RESTART: mk(RESTART, {}); break;
-          default: mk(START, {}); break;
+      auto reents = [&](int n) { for (int i = 0; i < n; ++i) mk(REENT, {rng(0, nm - 1), rng(0, NHOOK - 1), rng(0, 11), rng(0, NCALL - 1), rng(0, 5)}); };
+      if (rng(0, 3) == 0) reents((int)rng(1, 6));   // a quarter of the cases: re-entrant calls from inside callbacks
+      int lives = (int)pick({{5, 1}, {4, 2}, {1, 3}});
+      for (int life = 0; life < lives; ++life) {
+        if (life > 0) {   // the definition changes between two lives of the same objects
+          mk(STOP, {});
+          int ne = (int)rng(1, 6);
+          for (int i = 0; i < ne; ++i) {
+            int k = (int)rng(0, nm - 1);
+            int n = (int)declared[k].size();
+            std::vector<int64_t> all = declared[k];
+            switch (pick({{4, 0}, {4, 1}, {2, 2}, {1, 3}, {1, 4}, {1, 5}})) {
+              case 0: {   // a new state (state 0 preferred when the machine has none), usually with a route out of it
+                std::vector<int64_t> missing;
+                for (int64_t id = 0; id <= 5; ++id) { bool have = false; for (auto x : declared[k]) if (x == id) have = true; if (!have) missing.push_back(id); }
+                if (missing.empty()) break;
+                int64_t id = (missing[0] == 0 && rng(0, 1)) ? 0 : missing[rng(0, (int64_t)missing.size() - 1)];
+                mk(STATE, {k, id, pick({{6, 3}, {1, 0}, {1, 1}, {1, 2}})}); declared[k].push_back(id);
+                if (rng(0, 3) != 0) route(k, n);
+                if (rng(0, 1)) route(k, -1);
+                break; }
+              case 1: route(k, -1); break;
+              case 2: handler(k, all); break;
+              case 3: mk(INIT, {k, declared[k][rng(0, n - 1)]}); break;
+              case 4: mk(ATTACH, {k, rng(0, 5)}); break;
+              default: reents(1); break;
+            }
+          }
+        }
+        if (life > 0 || rng(0, 9) != 0) mk(START, {});
+        int nc = (int)pick({{1, 2}, {3, 8}, {4, 16}, {2, 30}});
+        nc = (int)rng(nc / 2, nc);
+        for (int i = 0; i < nc; ++i) {
+          switch (pick({{30, RUN}, {2, STOP}, {3, RESTART}, {2, START}})) {
+            case RUN: mk(RUN, {pick({{6, 1}, {6, 2}, {2, 3}, {1, 4}, {1, 5}})}); break;
+            case STOP: mk(STOP, {}); break;
+            case RESTART: mk(RESTART, {}); break;
+            default: mk(START, {}); break;
+          }
         }
       }
       return sc;
